@@ -197,6 +197,62 @@ def oracle(c, out):
     return None
 
 
+# ---------------------------------------------------------------- the daemon's own MRT table dump, read back (whole server)
+SIM_SPEC = ("sim", True, ("-test.run", "TestSim", "-test.timeout", "0"), "SIM ")
+DUMP_PEERS = [("a", "10.0.0.1", 65001, ""), ("b", "10.0.0.2", 65002, "aprecv"), ("c", "10.0.0.3", 4200000003, "")]
+DUMP_PFX = ["10.1.0.0/24", "10.2.0.0/24", "10.3.0.0/16"]
+
+
+def gen_dump(rng):
+    """routes of a few destinations from a plain peer, an ADD-PATH (receive) peer with several path identifiers, a peer with
+    a 4-octet AS, and local routes; then one TABLE_DUMPv2 dump of the global table"""
+    ev = []
+    for _ in range(rng.choice([3, 6, 10, 16])):
+        r = rng.random()
+        n, addr, asn, opt = rng.choice(DUMP_PEERS)
+        pf = rng.choice(DUMP_PFX)
+        pid = rng.choice([1, 2, 7]) if opt == "aprecv" else 0
+        if r < 0.6:
+            tail = rng.choice([[], [65020], [65020, 65021]])
+            ev.append("(upd %s (a %s %d (%s) %s - %d (%s) - ()))" % (n, pf, pid, " ".join(map(str, [asn] + tail)), rng.choice(["-", "0", "10"]), rng.choice([0, 1, 2]),
+                                                                  " ".join(map(str, rng.sample([6553601, 6553602], rng.choice([0, 0, 1, 2]))))))
+        elif r < 0.75:
+            ev.append("(upd %s (w %s %d))" % (n, pf, pid))
+        elif r < 0.9:
+            ev.append("(apiadd (a %s 0 () - - 0 () - ()))" % pf)
+        else:
+            ev.append("(apidel (a %s 0 () - - 0 () - ()))" % pf)
+    steps = ["(up a)", "(up b ap=2)", "(up c)"] + ev + ["(obs)", "(mrtdump)"]
+    return ("dump", "(sim (global 65000 1.1.1.1 sync) (peers %s) (steps %s))" % (" ".join("(%s %s %d%s)" % (n, a, s_, (" " + o) if o else "") for n, a, s_, o in DUMP_PEERS), " ".join(steps)), None)
+
+
+def dump_oracle(c, out):
+    from checks import simlib
+    o = out[4:] if out.startswith("SIM ") else out
+    if not o.startswith("ok"):
+        return ("harness-error", out[:300])
+    items = simlib.parse_sx(o[2:])
+    obs = [simlib.parse_obs(i) for i in items if i and i[0] == "obs"]
+    dumps = [i for i in items if i and i[0] == "mrtdump"]
+    if not obs or not dumps:
+        return ("harness-error", "no observation or no dump: " + out[:200])
+    d = dumps[-1]
+    if len(d) > 1 and d[1] in ("unreadable", "serialize-error"):
+        return ("mrt-dump-" + str(d[1]), "the daemon's own TABLE_DUMPv2 records do not read back: %s; scenario %s" % (" ".join(map(str, d[1:3])), c[1][:300]))
+    asn = {a: s_ for _, a, s_, _ in DUMP_PEERS}
+    want = {}
+    for pf, paths in obs[-1]["rib"].items():
+        want[pf] = sorted((p["src"], asn.get(p["src"], 0), int(p["pid"]), p["attrs"]) for p in paths)
+    got = {}
+    for e in d[1:]:
+        # a destination can have two records: one for the paths without path identifier, one (…_ADDPATH) for those with
+        got[e[0]] = sorted(got.get(e[0], []) + [(str(x[0]), int(x[1]), int(x[2]), x[3] if len(x) > 3 else "") for x in e[1:]])
+    if want != got:
+        pf = sorted(set(want) | set(got), key=lambda k: want.get(k) == got.get(k))[0]
+        return ("mrt-dump-differs-from-the-table", "%s: the dump read back holds (peer, peer AS, path id, attributes) %s, the global table holds %s" % (pf, got.get(pf), want.get(pf)))
+    return None
+
+
 def run(ctx):
     proof = core.coq_properties("C19")
     ctx.say("proof stage: ok=%s theorems=%d audit=%d (%.1fs)" % (proof["ok"], len(proof["theorems"]), len(proof["audit"]), proof.get("wall_s", 0)))
@@ -232,9 +288,16 @@ def run(ctx):
                             model_applies=lambda c: c[0] in modelled, nontrivial=lambda c: len(c[1]) > 20,
                             more_cases=lambda: gen_cases(ctx, n, seeds),
                             correspondence_name="rtr.ParseRTR/Serialize, bfd.UnmarshalBinary/MarshalBinary, mrt.SplitMrt, bmp.SplitBMP vs Codecs.Model")
+    # the TABLE_DUMPv2 records the daemon itself writes for its global table (mrtWriter.dumpTable on a whole server), read back
+    dcases = [gen_dump(ctx.rng) for _ in range(ctx.scale(300, 6000))]
+    cov2 = core.differential(ctx, "c19", proof, dcases, lambda c: c[1], dump_oracle, model_applies=lambda c: False, nontrivial=lambda c: True,
+                             model_line_of=lambda c: "rtr 00", correspondence_name="mrtWriter.dumpTable + mrt Serialize / ParseBody on a running server (oracle: the global table listing)",
+                             impl_spec=SIM_SPEC, model_name="c19")
+    for k in ("evaluations", "distinct_nontrivial", "traces_validated_against_impl"):
+        cov[k] = cov.get(k, 0) + cov2.get(k, 0)
     pc = core.proof_coverage(proof)
     pc.update(cov)
-    kinds = {}
+    kinds = {"daemon-table-dump-scenarios": len(dcases)}
     for c in cases:
         kinds[c[0]] = kinds.get(c[0], 0) + 1
     pc.update({
@@ -242,7 +305,7 @@ def run(ctx):
         "input_distribution": kinds,
         "trusted_base": core.TRUSTED_COMMON + ["BMP/MRT message bodies and all ZAPI bodies are NOT modelled: decided by search (no panic, no hang, input unmodified, round trip of constructor-built messages)"],
     })
-    return ctx.finish(pc, ["byte strings are lists of values in [0,256)", "the daemon-emitted BMP/MRT records are covered by the constructor-built seeds (bmpPeerUp/Down/Route and dumpTable use these constructors), not captured from a running server"])
+    return ctx.finish(pc, ["byte strings are lists of values in [0,256)", "the daemon-emitted BMP records are covered by the constructor-built seeds (bmpPeerUp/Down/Route use these constructors), not captured from a running server; the MRT table dump IS taken from a running server (plain, ADD-PATH and 4-octet-AS peers, local routes) and compared with the table listing"])
 
 
 def replay(ctx, path):
